@@ -141,11 +141,9 @@ func managerKeepsValidatorUpdates(r *Run, rule string) {
 				continue
 			}
 			for i, e := range phi.Edges {
-				c, ok := e.(*ssa.Call)
-				if !ok || c.Call.Method == nil || c.Call.Method.Name() != "EndBlock" || i >= len(b.Preds) {
+				if _, isCall := e.(*ssa.Call); !isCall || i >= len(b.Preds) {
 					continue
 				}
-				n++
 				p := b.Preds[i]
 				k := 0
 				for j, s := range p.Succs {
@@ -153,9 +151,18 @@ func managerKeepsValidatorUpdates(r *Run, rule string) {
 						k = j
 					}
 				}
-				gs := P.EdgeGuards(p, k)
-				ok2, _ := HasAtom(gs, `^!\(0 == len\(types/module\.AppModule\.EndBlock\(`)
-				r.Check(ok2, rule, "Manager.EndBlock/replace-only-when-non-empty", P.InstrPos(c), "under len(moduleValUpdates) > 0", "a module's EndBlock result replaces the collected validator updates under {"+strings.Join(atomStrings(gs), " ; ")+"} ; required len(result) > 0 — an empty result of a later module would erase the staking module's updates")
+				// the alternatives of the value that arrives on this edge: the module's result itself, or what a
+				// selecting helper introduced by a refactoring returns
+				var alts []RetAlt
+				P.expandAlts(e, phi, P.EdgeGuards(p, k), nil, 0, f, &alts)
+				for _, a := range alts {
+					if !strings.HasPrefix(a.T.String(), "types/module.AppModule.EndBlock(") {
+						continue
+					}
+					n++
+					ok2, _ := HasAtom(a.G, `^!\(0 == len\(types/module\.AppModule\.EndBlock\(`)
+					r.Check(ok2, rule, "Manager.EndBlock/replace-only-when-non-empty", P.InstrPos(e.(*ssa.Call)), "under len(moduleValUpdates) > 0", "a module's EndBlock result replaces the collected validator updates under {"+strings.Join(atomStrings(a.G), " ; ")+"} ; required len(result) > 0 — an empty result of a later module would erase the staking module's updates")
+				}
 			}
 		}
 	}
